@@ -661,6 +661,12 @@ func RunEnvCase(seed int64, exe, workDir string) *HistResult {
 		return res
 	}
 	defer sys.Close()
+	// half of the cases schedule through the HTTP handler (requests decoded by the server, one after the other)
+	viaHTTP := seed%2 == 0
+	envAPI := core.NewAPI(sys.R, out, "0123456789abcdef-harness-secret", false)
+	if viaHTTP {
+		res.sit("C18", "jobs scheduled over HTTP")
+	}
 	type jobInfo struct {
 		id, pipe, tv string
 		opt          string
@@ -684,7 +690,14 @@ func RunEnvCase(seed int64, exe, workDir string) *HistResult {
 			opt = fmt.Sprintf("opt-%d-%d", i, r.Intn(1e6))
 			vars["opt"] = opt
 		}
-		id, cls := sys.Schedule(0, sp.Name, vars, "u")
+		var id, cls string
+		if viaHTTP {
+			// over HTTP everything is JSON: the typed values travel as strings so that their rendering is the same
+			vars["num"], vars["big"], vars["small"], vars["flag"] = fmt.Sprint(1000000+i), "9007199254740993", "7", "true"
+			id, cls = sys.ScheduleHTTP(0, envAPI, sp.Name, vars)
+		} else {
+			id, cls = sys.Schedule(0, sp.Name, vars, "u")
+		}
 		if cls != "ok" {
 			res.Inconclusive = "schedule: " + cls
 			return res
